@@ -25,12 +25,14 @@ def finisher(rng, tag, kinds):
         return "P", "500", "~"
     if k == "rawempty":
         return "Z", None, None
+    if k == "rawpanic":
+        return "Q", None, None
     body = body_bytes("w" + tag, rng.choice([4, 300, 2000]))
     raw = b"HTTP/1.1 299 Raw\r\nContent-Length: %d\r\n\r\n" % len(body) + body
-    return ("W" if k == "raw" else "X") + hx(raw), "299", hx(body)
+    return {"raw": "W", "rawx": "X", "rawflush": "Y"}[k] + hx(raw), "299", hx(body)
 
 
-ALL_KINDS = ["respond", "respond", "chunked", "drop", "panic", "raw", "rawx", "rawempty"]
+ALL_KINDS = ["respond", "respond", "chunked", "drop", "panic", "raw", "rawx", "rawempty", "rawflush", "rawflush", "rawpanic"]
 
 
 def build(rng, i, n, order, grace, kinds=ALL_KINDS, transport="u"):
